@@ -152,7 +152,7 @@ func ghost_emitted(eb *extension.AsyncEventBroker[event.MessageMetadata]) vcSeq[
 //@   ensures[eventIdentity C16] ret != nil ==>
 //@      vcSeqAt(ghost_emitted(&s.extHost.Events.AfterMessageDeleted), old(ghost_nemitted(&s.extHost.Events.AfterMessageDeleted))).ID == id &&
 //@      vcSeqAt(ghost_emitted(&s.extHost.Events.AfterMessageDeleted), old(ghost_nemitted(&s.extHost.Events.AfterMessageDeleted))).Mailbox == mailbox
-//@   serves C07 C16 C09
+//@   serves C07 C16 C09 C08
 
 // RemoveMessage: a message that does not exist is ErrNotExist.
 //@ func (*Store).RemoveMessage
